@@ -6,7 +6,8 @@
   as stored by a constructed `AnalysisPeriod`; a period that is not well-formed answers `bad-op`).
   Continuous sources carry the values 0, 1, 2, … (position ids) unless the op sends values;
   keyed sources carry position ids unless the op sends (key, value) pairs.
-  Answers:  `ok D <period> <n> k1 v1 k2 v2 …`  (keyed / discontinuous result),
+  Keyed ops take the `validated_a_period` flag (0|1) of the source right after its period.
+  Answers:  `ok D <period> <validated> <n> k1 v1 k2 v2 …`  (keyed / discontinuous result),
             `ok C <period> <n> v1 v2 …`         (continuous result),  `err:<class>`.
 -/
 import Ladybug.DrvCore
@@ -83,7 +84,7 @@ def showAP (ap : AP) : String :=
 def showKeyed {κ α : Type} (sk : κ → String) (sv : α → String) (r : Except FErr (Keyed κ α)) : String :=
   match r with
   | .error e => showErr e
-  | .ok d => s!"ok D {showAP d.ap} {d.pairs.length} " ++ joinSp (d.pairs.map fun p => sk p.1 ++ " " ++ sv p.2)
+  | .ok d => s!"ok D {showAP d.ap} {showBool d.validated} {d.pairs.length} " ++ joinSp (d.pairs.map fun p => sk p.1 ++ " " ++ sv p.2)
 
 def showTriple (t : Nat × Nat × Nat) : String := s!"{t.1} {t.2.1} {t.2.2}"
 
@@ -97,7 +98,8 @@ def showRes {α : Type} (sv : α → String) (r : Except FErr (Res α)) : String
 def idCont (ap : AP) : Except FErr (Cont Nat) := Cont.mk? ap (List.range ap.len)
 
 /-- Keyed source with position ids as values. -/
-def idKeyed {κ : Type} (ap : AP) (keys : List κ) : Keyed κ Nat := ⟨ap, keys.zip (List.range keys.length)⟩
+def idKeyed {κ : Type} (ap : AP) (v : Bool) (keys : List κ) : Keyed κ Nat :=
+  ⟨ap, keys.zip (List.range keys.length), v⟩
 
 def ratOfFloat (f : Float) : Option Rat := Py.ratOfFloatBits f.toBits
 
@@ -148,41 +150,41 @@ def run (op : String) : P String := do
     if y = 0 then failure
     pure (showKeyed showN showI ((Cont.mk? ap vals).bind (Cont.filterByPred (stmt code x y z))))
   | "disc_moys" =>
-    let ap ← pAP; let keys ← pList pNat; let req ← pList pInt; pEnd
-    pure (showKeyed showN showN (Disc.filterByMoys req (idKeyed ap keys)))
+    let ap ← pAP; let v ← pBool; let keys ← pList pNat; let req ← pList pInt; pEnd
+    pure (showKeyed showN showN (Disc.filterByMoys req (idKeyed ap v keys)))
   | "disc_ap" =>
-    let ap ← pAP; let keys ← pList pNat; let f ← pAP; pEnd
-    pure (showKeyed showN showN (Disc.filterByAP f (idKeyed ap keys)))
+    let ap ← pAP; let v ← pBool; let keys ← pList pNat; let f ← pAP; pEnd
+    pure (showKeyed showN showN (Disc.filterByAP f (idKeyed ap v keys)))
   | "disc_hoys" =>
-    let ap ← pAP; let keys ← pList pNat; let hs ← pList pFloat; pEnd
+    let ap ← pAP; let v ← pBool; let keys ← pList pNat; let hs ← pList pFloat; pEnd
     match hs.mapM hourPair with
     | none => failure
-    | some hp => pure (showKeyed showN showN (Disc.filterByHoys (hp.map (·.2)) (idKeyed ap keys)))
+    | some hp => pure (showKeyed showN showN (Disc.filterByHoys (hp.map (·.2)) (idKeyed ap v keys)))
   | "keyed_pattern" =>
-    let ap ← pAP; let keys ← pList pNat; let pat ← pList pBool; pEnd
-    pure (showKeyed showN showN (Keyed.filterByPattern pat (idKeyed ap keys)))
+    let ap ← pAP; let v ← pBool; let keys ← pList pNat; let pat ← pList pBool; pEnd
+    pure (showKeyed showN showN (Keyed.filterByPattern pat (idKeyed ap v keys)))
   | "keyed_range" =>
-    let ap ← pAP; let lo ← pOptInt; let hi ← pOptInt; let ps ← pPairs; pEnd
-    pure (showKeyed showN showI (Keyed.filterByRange lo hi ⟨ap, ps⟩))
+    let ap ← pAP; let v ← pBool; let lo ← pOptInt; let hi ← pOptInt; let ps ← pPairs; pEnd
+    pure (showKeyed showN showI (Keyed.filterByRange lo hi ⟨ap, ps, v⟩))
   | "keyed_stmt" =>
-    let ap ← pAP; let code ← pNat; let x ← pInt; let y ← pInt; let z ← pInt; let ps ← pPairs; pEnd
+    let ap ← pAP; let v ← pBool; let code ← pNat; let x ← pInt; let y ← pInt; let z ← pInt; let ps ← pPairs; pEnd
     if y = 0 then failure
-    pure (showKeyed showN showI (Keyed.filterByPred (stmt code x y z) ⟨ap, ps⟩))
+    pure (showKeyed showN showI (Keyed.filterByPred (stmt code x y z) ⟨ap, ps, v⟩))
   | "keys" =>
-    let ap ← pAP; let keys ← pList pNat; let req ← pList pNat; pEnd
-    pure (showKeyed showN showN (Keyed.filterByKeys req (idKeyed ap keys)))
+    let ap ← pAP; let v ← pBool; let keys ← pList pNat; let req ← pList pNat; pEnd
+    pure (showKeyed showN showN (Keyed.filterByKeys req (idKeyed ap v keys)))
   | "daily_ap" =>
-    let ap ← pAP; let keys ← pList pNat; let f ← pAP; pEnd
-    pure (showKeyed showN showN (dailyFilterByAP f (idKeyed ap keys)))
+    let ap ← pAP; let v ← pBool; let keys ← pList pNat; let f ← pAP; pEnd
+    pure (showKeyed showN showN (dailyFilterByAP f (idKeyed ap v keys)))
   | "monthly_ap" =>
-    let ap ← pAP; let keys ← pList pNat; let f ← pAP; pEnd
-    pure (showKeyed showN showN (monthlyFilterByAP f (idKeyed ap keys)))
+    let ap ← pAP; let v ← pBool; let keys ← pList pNat; let f ← pAP; pEnd
+    pure (showKeyed showN showN (monthlyFilterByAP f (idKeyed ap v keys)))
   | "mph_keys" =>
-    let ap ← pAP; let keys ← pList pTriple; let req ← pList pTriple; pEnd
-    pure (showKeyed showTriple showN (Keyed.filterByKeys req (idKeyed ap keys)))
+    let ap ← pAP; let v ← pBool; let keys ← pList pTriple; let req ← pList pTriple; pEnd
+    pure (showKeyed showTriple showN (Keyed.filterByKeys req (idKeyed ap v keys)))
   | "mph_ap" =>
-    let ap ← pAP; let keys ← pList pTriple; let f ← pAP; pEnd
-    pure (showKeyed showTriple showN (mphFilterByAP f (idKeyed ap keys)))
+    let ap ← pAP; let v ← pBool; let keys ← pList pTriple; let f ← pAP; pEnd
+    pure (showKeyed showTriple showN (mphFilterByAP f (idKeyed ap v keys)))
   | "ap_subset" =>
     let ap ← pAP; let f ← pAP; pEnd
     pure ("ok " ++ showAP (apSubset ap f))
